@@ -523,4 +523,99 @@ theorem parseNumLoop_roundtrip (d : Bytes) (v n : Nat) (base pe : Nat)
     have := ih (c + 1) (by omega)
     simpa [Nat.add_assoc] using this
 
+theorem or_shift (a b k : Nat) (h : b < 2 ^ k) : a <<< k ||| b = a * 2 ^ k + b := by
+  rw [← Nat.shiftLeft_add_eq_or_of_lt h, Nat.shiftLeft_eq]
+
+/-- one-byte PkgLength -/
+theorem pkglen1 (d : Bytes) (v base pe : Nat) (hv : v < 64) (hfit : base + 1 ≤ pe)
+    (h0 : d[base]? = some (UInt8.ofNat v)) :
+    parsePkgLength d { offset := base, pkgEnd := pe } = .ok ((v, PRes.ok), { offset := base + 1, pkgEnd := pe }) := by
+  unfold parsePkgLength
+  have hrd := readByte_at (d := d) (r := { offset := base, pkgEnd := pe }) (b := UInt8.ofNat v) (by show base < pe; omega) h0
+  show (StateT.bind offset _) _ = _
+  simp only [StateT.bind, offset, pure, Except.pure, bind, Except.bind, hrd]
+  have ht : (UInt8.ofNat v).toNat = v := by simp [UInt8.toNat_ofNat']; omega
+  have hs : v >>> 6 = 0 := by rw [Nat.shiftRight_eq_div_pow]; simp; omega
+  simp [ht, hs]
+  rfl
+
+/-- two-byte PkgLength -/
+theorem pkglen2 (d : Bytes) (v base pe : Nat) (hv : v < 4096) (hfit : base + 2 ≤ pe)
+    (h0 : d[base]? = some (UInt8.ofNat (64 + v % 16))) (h1 : d[base + 1]? = some (UInt8.ofNat (v / 16 % 256))) :
+    parsePkgLength d { offset := base, pkgEnd := pe } = .ok ((v, PRes.ok), { offset := base + 2, pkgEnd := pe }) := by
+  unfold parsePkgLength
+  have hrd0 := readByte_at (d := d) (r := { offset := base, pkgEnd := pe }) (b := UInt8.ofNat (64 + v % 16)) (by show base < pe; omega) h0
+  have hrd1 := readByte_at (d := d) (r := { offset := base + 1, pkgEnd := pe }) (b := UInt8.ofNat (v / 16 % 256)) (by show base + 1 < pe; omega) h1
+  show (StateT.bind offset _) _ = _
+  simp only [StateT.bind, offset, pure, Except.pure, bind, Except.bind, hrd0]
+  have ht : (UInt8.ofNat (64 + v % 16)).toNat = 64 + v % 16 := by simp [UInt8.toNat_ofNat']; omega
+  have ht1 : (UInt8.ofNat (v / 16 % 256)).toNat = v / 16 := by simp [UInt8.toNat_ofNat']; omega
+  have hs : (64 + v % 16) >>> 6 = 1 := by rw [Nat.shiftRight_eq_div_pow]; simp; omega
+  have ha : (64 + v % 16) &&& 15 = v % 16 := by
+    have := Nat.and_two_pow_sub_one_eq_mod (64 + v % 16) 4
+    simp at this; rw [this]; omega
+  have hv' : (v / 16) <<< 4 ||| v % 16 = v := by
+    rw [or_shift _ _ 4 (by omega)]; omega
+  simp only [ht, hs, StateT.bind, bind, Except.bind, hrd1, ht1, ha, hv']
+  rfl
+
+/-- three-byte PkgLength -/
+theorem pkglen3 (d : Bytes) (v base pe : Nat) (hv : v < 1048576) (hfit : base + 3 ≤ pe)
+    (h0 : d[base]? = some (UInt8.ofNat (128 + v % 16))) (h1 : d[base + 1]? = some (UInt8.ofNat (v / 16 % 256)))
+    (h2 : d[base + 2]? = some (UInt8.ofNat (v / 16 / 256 % 256))) :
+    parsePkgLength d { offset := base, pkgEnd := pe } = .ok ((v, PRes.ok), { offset := base + 3, pkgEnd := pe }) := by
+  unfold parsePkgLength
+  have hrd0 := readByte_at (d := d) (r := { offset := base, pkgEnd := pe }) (b := UInt8.ofNat (128 + v % 16)) (by show base < pe; omega) h0
+  have hrd1 := readByte_at (d := d) (r := { offset := base + 1, pkgEnd := pe }) (b := UInt8.ofNat (v / 16 % 256)) (by show base + 1 < pe; omega) h1
+  have hrd2 := readByte_at (d := d) (r := { offset := base + 1 + 1, pkgEnd := pe }) (b := UInt8.ofNat (v / 16 / 256 % 256)) (by show base + 1 + 1 < pe; omega) h2
+  show (StateT.bind offset _) _ = _
+  simp only [StateT.bind, offset, pure, Except.pure, bind, Except.bind, hrd0]
+  have ht : (UInt8.ofNat (128 + v % 16)).toNat = 128 + v % 16 := by simp [UInt8.toNat_ofNat']; omega
+  have ht1 : (UInt8.ofNat (v / 16 % 256)).toNat = v / 16 % 256 := by simp [UInt8.toNat_ofNat']
+  have ht2 : (UInt8.ofNat (v / 16 / 256 % 256)).toNat = v / 4096 := by simp [UInt8.toNat_ofNat']; omega
+  have hs : (128 + v % 16) >>> 6 = 2 := by rw [Nat.shiftRight_eq_div_pow]; simp; omega
+  have ha : (128 + v % 16) &&& 15 = v % 16 := by
+    have := Nat.and_two_pow_sub_one_eq_mod (128 + v % 16) 4
+    simp at this; rw [this]; omega
+  have hv' : (v / 4096) <<< 12 ||| (v / 16 % 256) <<< 4 ||| v % 16 = v := by
+    have e1 : (v / 4096) <<< 12 ||| (v / 16 % 256) <<< 4 = (v / 4096 * 256 + v / 16 % 256) <<< 4 := by
+      rw [or_shift _ _ 12 (by rw [Nat.shiftLeft_eq]; omega)]
+      simp only [Nat.shiftLeft_eq]; omega
+    rw [e1, or_shift _ _ 4 (by omega)]; omega
+  simp only [ht, hs, StateT.bind, bind, Except.bind, hrd1, hrd2, ht1, ht2, ha, hv']
+  rfl
+
+/-- four-byte PkgLength -/
+theorem pkglen4 (d : Bytes) (v base pe : Nat) (hv : v < 268435456) (hfit : base + 4 ≤ pe)
+    (h0 : d[base]? = some (UInt8.ofNat (192 + v % 16))) (h1 : d[base + 1]? = some (UInt8.ofNat (v / 16 % 256)))
+    (h2 : d[base + 2]? = some (UInt8.ofNat (v / 16 / 256 % 256)))
+    (h3 : d[base + 3]? = some (UInt8.ofNat (v / 16 / 65536 % 256))) :
+    parsePkgLength d { offset := base, pkgEnd := pe } = .ok ((v, PRes.ok), { offset := base + 4, pkgEnd := pe }) := by
+  unfold parsePkgLength
+  have hrd0 := readByte_at (d := d) (r := { offset := base, pkgEnd := pe }) (b := UInt8.ofNat (192 + v % 16)) (by show base < pe; omega) h0
+  have hrd1 := readByte_at (d := d) (r := { offset := base + 1, pkgEnd := pe }) (b := UInt8.ofNat (v / 16 % 256)) (by show base + 1 < pe; omega) h1
+  have hrd2 := readByte_at (d := d) (r := { offset := base + 1 + 1, pkgEnd := pe }) (b := UInt8.ofNat (v / 16 / 256 % 256)) (by show base + 1 + 1 < pe; omega) h2
+  have hrd3 := readByte_at (d := d) (r := { offset := base + 1 + 1 + 1, pkgEnd := pe }) (b := UInt8.ofNat (v / 16 / 65536 % 256)) (by show base + 1 + 1 + 1 < pe; omega) h3
+  show (StateT.bind offset _) _ = _
+  simp only [StateT.bind, offset, pure, Except.pure, bind, Except.bind, hrd0]
+  have ht : (UInt8.ofNat (192 + v % 16)).toNat = 192 + v % 16 := by simp [UInt8.toNat_ofNat']; omega
+  have ht1 : (UInt8.ofNat (v / 16 % 256)).toNat = v / 16 % 256 := by simp [UInt8.toNat_ofNat']
+  have ht2 : (UInt8.ofNat (v / 16 / 256 % 256)).toNat = v / 4096 % 256 := by simp [UInt8.toNat_ofNat']; omega
+  have ht3 : (UInt8.ofNat (v / 16 / 65536 % 256)).toNat = v / 1048576 := by simp [UInt8.toNat_ofNat']; omega
+  have hs : (192 + v % 16) >>> 6 = 3 := by rw [Nat.shiftRight_eq_div_pow]; simp; omega
+  have ha : (192 + v % 16) &&& 15 = v % 16 := by
+    have := Nat.and_two_pow_sub_one_eq_mod (192 + v % 16) 4
+    simp at this; rw [this]; omega
+  have hv' : (v / 1048576) <<< 20 ||| (v / 4096 % 256) <<< 12 ||| (v / 16 % 256) <<< 4 ||| v % 16 = v := by
+    have e1 : (v / 1048576) <<< 20 ||| (v / 4096 % 256) <<< 12 = (v / 1048576 * 256 + v / 4096 % 256) <<< 12 := by
+      rw [or_shift _ _ 20 (by rw [Nat.shiftLeft_eq]; omega)]
+      simp only [Nat.shiftLeft_eq]; omega
+    have e2 : (v / 1048576 * 256 + v / 4096 % 256) <<< 12 ||| (v / 16 % 256) <<< 4 =
+        ((v / 1048576 * 256 + v / 4096 % 256) * 256 + v / 16 % 256) <<< 4 := by
+      rw [or_shift _ _ 12 (by rw [Nat.shiftLeft_eq]; omega)]
+      simp only [Nat.shiftLeft_eq]; omega
+    rw [e1, e2, or_shift _ _ 4 (by omega)]; omega
+  simp only [ht, hs, StateT.bind, bind, Except.bind, hrd1, hrd2, hrd3, ht1, ht2, ht3, ha, hv']
+  rfl
+
 end Firefly.AmlLex
